@@ -115,14 +115,16 @@ EXTRA_TEXT = {
     "C04": " Includes event types that already start with wasm- or equal entry-point names and data that is itself an encoded execute / instantiate response.",
     "C05": " Histories also run on chains built with MockApiBech32 / MockApiBech32m and with respelled addresses (rejected by every codec); signers include non-addresses such as the empty string.",
     "C07": " Several operations on one held view object (mutable and read-only, incl. redundant writes) are compared read by read; range_keys / range_values are projections of range.",
-    "C08": " Own storage iterated in descending order at entry and after the call's own writes equals the model; writes and removals through App::contract_storage_mut land in that contract's key space only.",
-    "C10": " After a failed call App queries equal the committed state; staking queries equal the raw staking state; smart queries are answered by the recorded code.",
+    "C08": " Own storage iterated in descending order at entry and after the call's own writes equals the model; writes and removals through App::contract_storage_mut land in that contract's key space only. Some histories run on a chain with a user-written codec for plain case-sensitive addresses whose address generator names contracts Vault, vault, VAULT, vault/, vaul, ... : each is a contract of its own.",
+    "C09": " Denominations include near misses of one another (other letter case, a prefix, an extension): each is a denomination of its own.",
+    "C14": " Coins in a near miss of the bonded denomination (other letter case, padded, a prefix, an extension) are rejected like any other denomination, although the delegators hold such coins.",
+    "C10": " After a failed call App queries equal the committed state; staking queries equal the raw staking state; smart queries are answered by the recorded code. The key-only and value-only iterations of a query's read-only view list what its range lists.",
     "C12": " Codes assembled by ContractWrapper::new without reply / sudo / migrate entry points: a migration to a code without migrate fails and changes nothing. Admin-less contracts reject every signer incl. the empty string.",
     "C13": " Values include long, padded, reserved-looking and multi-line strings.",
-    "C17": " Module answers rotate over data / events / both / nothing (reply_on Success and Always must still deliver exactly that answer); execute_multi batches: modules see exactly the prefix up to the first failing message.",
+    "C17": " Module answers rotate over data / events / both / nothing (reply_on Success and Always must still deliver exactly that answer); execute_multi batches: modules see exactly the prefix up to the first failing message. A smaller matrix (kind x origin x accepting / failing module) also runs on builds of the repository with the feature sets default, cosmwasm_2_0, stargate, staking and staking+stargate+cosmwasm_1_4: every message / query variant that exists in a build reaches its module there.",
     "C18": " Whatever validation accepts it returns unchanged (all upper case and non-zero padding-bit spellings of valid addresses are tried).",
     "C19": " Staking and bank programs are generated on a thread of their own and compared between a never-used thread, the used worker thread and other processes that receive the programs in a file; transcripts include env.transaction, reply.gas_used and reply.msg_responses.",
-    "C20": " The wrapper chains also run on a build of the repository with its default feature set (what a wrapper keeps must not depend on the build's features). Steps given twice (decoy first) equal the chain with the value supplied last; every wrapped entry point's whole response (attributes, event, data, sub-messages with gas limits, plain messages) arrives unchanged; App::default / App::new / custom_app give the documented defaults.",
+    "C20": " The wrapper chains also run on builds of the repository with its default and four other reduced feature sets (what a wrapper keeps must not depend on the build's features). Steps given twice (decoy first) equal the chain with the value supplied last; every wrapped entry point's whole response (attributes, event, data, sub-messages with gas limits, plain messages) arrives unchanged; App::default / App::new / custom_app give the documented defaults.",
 }
 for _pid, _t in EXTRA_TEXT.items():
     P[_pid]["text"] += _t
@@ -152,7 +154,7 @@ def main():
             engines.setdefault(p["engine"], []).append(pid)
     m = {
         "version": 1,
-        "setup_cmd": "cd /verif && CARGO_NET_OFFLINE=true cargo build --offline --profile verif --manifest-path harness/Cargo.toml --target-dir target --bins && CARGO_NET_OFFLINE=true cargo build --offline --profile verif --manifest-path harness-min/Cargo.toml --target-dir target/min --bins",
+        "setup_cmd": "cd /verif && CARGO_NET_OFFLINE=true cargo build --offline --profile verif --manifest-path harness/Cargo.toml --target-dir target --bins && for fs in default cosmwasm_2_0 stargate staking staking,stargate,cosmwasm_1_4; do n=$(echo $fs | tr , +); fl=; [ $fs != default ] && fl=\"--features $fs\"; CARGO_NET_OFFLINE=true cargo build --offline --profile verif --manifest-path harness-min/Cargo.toml --target-dir target/feat/$n --bins $fl || exit 1; done",
         "hooks": {
             "guard": "cargo feature `verif` of cw-multi-test (off by default)",
             "enable": "the harness crate depends on cw-multi-test = { path = \"/repo\", features = [\"verif\", \"staking\", \"stargate\", \"cosmwasm_2_2\"] }; ./check rebuilds it from /repo's working tree on every invocation",
